@@ -7,7 +7,10 @@ RULE = ("TLC explores Console.tla (line editor, in-place tokeniser transcribed s
         "registrations; a (budgeted) edge cover of the state graph is replayed on console.c through console_process and "
         "through console_putchar + the console fibre; the driver then feeds every stream of 4 (5) characters over the same "
         "alphabet, random long lines around the 79-character limit through all three delivery paths (process, putchar, "
-        "console_eval), and registration orders up to and beyond the table capacity; the argc/argv seen by capturing "
+        "console_eval), registration orders up to and beyond the table capacity, and pairs of lines typed alternately into two "
+        "consoles whose commands yield (each must behave as its own instance); commands named ...b use the scratch buffer for "
+        "their own state after reading their arguments; the argc/argv seen by capturing commands, every entry into a command "
+        "function (first call and resumptions), "
         "commands, the edited line and registration results are validated by TLC against TraceConsole.tla. The console "
         "structure is heap-allocated so that a write outside it is an ASan report. A case = one execution; distinct by hash.")
 ASSUMPTIONS = ["named deviation TokenizeKeepsLeadingBlank: a line starting with a blank names no command (modelled, no alarm)",
@@ -40,10 +43,15 @@ def run(run):
     for path in (0, 1):
         conv.path = path
         script += labels_to_script(paths[path::2], reset_line="Reset", conv=conv)
+    walks = sim_walks(run, "Console_mc", "Console_sim.cfg", 2000 if run.thorough() else 400, 40)
+    conv.path = 0
+    script += labels_to_script(walks[0::2], reset_line="Reset", conv=conv)
+    conv.path = 1
+    script += labels_to_script(walks[1::2], reset_line="Reset", conv=conv)
     tr = exec_script(run, exe, [], script, run.path("cover.ndjson"), "edge-cover", timeout=600)
     check_trace(run, "edge-cover", "TraceConsole", "TraceConsole.cfg", tr, timeout=1500)
     sample_trace(run, tr, 10)
     ml, nr = (5, 6000) if run.thorough() else (4, 700)
-    sc = "Streams %d 0\nStreams %d 1\nRegOrders %d\nRandom %d %d\n" % (ml, ml - 1, run.seed, run.seed + 1, nr)
+    sc = "Streams %d 0\nStreams %d 1\nRegOrders %d\nRandom %d %d\nTwos %d %d\n" % (ml, ml - 1, run.seed, run.seed + 1, nr, run.seed + 2, nr // 2)
     tr2 = exec_script(run, exe, [], sc, run.path("streams.ndjson"), "streams+random", timeout=900)
     check_trace(run, "streams+random", "TraceConsole", "TraceConsole.cfg", tr2, timeout=1700)
